@@ -11,7 +11,7 @@ from vlib import env
 from vlib.cassettes import open_box, KINDS
 from vlib.programs import Built, World, describe, gen_program, playback_function_for, call_outcome
 from vlib.spies import SpyCassette
-from vlib.values import Gen, teq, fresh, in_domain, mutate_deep, shares_mutable, mutable_ids
+from vlib.values import recording_in_domain, Gen, teq, fresh, in_domain, mutate_deep, shares_mutable, mutable_ids
 
 PROPERTY = 'C11'
 LEVEL = 'exploration'
@@ -31,7 +31,7 @@ def recording_case(ctx, seed):
     for _ in range(20):
         data = {'k%d' % i: g.mutable_value(3, sharing=sharing) for i in range(rng.randrange(1, 5))}
         md = {'m%d' % i: g.mutable_value(2, sharing=sharing) for i in range(rng.randrange(0, 3))}
-        if in_domain({'recording_data': data, 'recording_metadata': md}) and in_domain(dict(data, _metadata=md)):
+        if recording_in_domain(data, md):
             break
     else:
         return
@@ -118,8 +118,7 @@ def replay_case(ctx, seed):
         if len(saves) != 1:
             return
         ro = spy.recordings[saves[0][1]]
-        if not in_domain({'recording_data': ro.recording_data, 'recording_metadata': ro.recording_metadata}) or \
-                not in_domain(dict(ro.recording_data, _metadata=ro.recording_metadata)):
+        if not recording_in_domain(ro.recording_data, ro.recording_metadata):
             ctx.count('recordings_out_of_serializer_domain')
             return
         rec2 = TapeRecorder(box.reader())
